@@ -423,7 +423,10 @@ def comprehension(it, e, frame, kind):
     gens = e.generators
     cframe = Frame(frame.closure, {}, frame)
     cframe.globals = frame.globals
-    first = it.eval(gens[0].iter, frame)
+    first = it.deopt(it.eval(gens[0].iter, frame))
+    if hasattr(first, "quant_bind"):
+        from . import cset
+        return cset.quant_comprehension(it, e, frame, cframe, first, kind)
     view = as_view(it, first)
     if view is not None and isinstance(concrete_of(view.length_), int):
         first, view = view.iterate(it), None
@@ -507,10 +510,10 @@ def _install_comp_consumers():
     b_any, b_all, b_tuple, b_list, b_set, b_fset = (MODELS[any], MODELS[all], MODELS[tuple], MODELS[list], MODELS[set], MODELS[frozenset])
 
     def m_any(it, v):
-        return v.exists() if isinstance(v, SymComp) else b_any(it, v)
+        return v.exists() if hasattr(v, "exists") else b_any(it, v)
 
     def m_all(it, v):
-        return v.forall() if isinstance(v, SymComp) else b_all(it, v)
+        return v.forall() if hasattr(v, "forall") else b_all(it, v)
 
     def m_tuple(it, v=()):
         return v.as_seq("tuple") if isinstance(v, SymComp) else b_tuple(it, v)
